@@ -5,7 +5,7 @@ Case lines:
      abstracted to glue-IR rows (slot position, C signature, Default-vtable wiring, wrapper target/conversions, trait-impl slot fetch/conversions);
      the Coq function gen_trait must predict exactly these rows.
  '101 <half> <container> | call ; call ..'  compiled program: the same call history on a value directly and through an opaque object
-     (container 0 Box / 1 &mut / 2 & / 3 Box + CArc context) built from an identical value; see harness/prog/src/shapes.rs for the call codes.
+     (container 0 Box / 1 &mut / 2 & / 3 Box + CArc context / 4 CArcSome / 5 clone of a shared CArcSome + CArc context) built from an identical value; see harness/prog/src/shapes.rs for the call codes.
  '108 <enabled> <container> | castop request ; ..'  group casts followed by calls (see C08).
 Monitor: results, argument digests seen by the implementation, final state, call log (same method, same instance, once) agree."""
 PROP = "C01"
